@@ -85,14 +85,19 @@ def run(outdir):
             if sh("git apply %s" % d, wt).returncode != 0:
                 res.write("%s\tAPPLY-FAILED\n" % name); continue
             killed = []
-            for i in range(1, 21):
+            meta = json.load(open(d[:-5] + ".json"))
+            first = {"scanner.go": [14, 12, 13, 15, 1, 2], "parser.go": [2, 1, 15, 14], "resolve.go": [10, 8], "types.go": [14, 2, 1],
+                     "utilities.go": [6, 16, 10, 15, 5, 3], "runner.go": [3, 11, 16, 17, 18, 4, 5, 6, 7, 19, 20, 8, 10, 12, 13]}.get(meta["file"], [])
+            order = first + [i for i in range(1, 21) if i not in first]
+            for i in order:
+                if killed and not os.environ.get("MUT_ALL"):
+                    break  # first kill is enough for the score; MUT_ALL=1 runs every check
                 pid = "C%02d" % i
                 r = subprocess.run(["./check", pid, "quick"], cwd="/verif", env=dict(os.environ, VERIF_REPO_DIR=wt, VERIF_SEED="1"), stdout=subprocess.PIPE, stderr=subprocess.STDOUT, text=True)
                 if r.returncode == 1:
                     killed.append(pid)
                 elif r.returncode != 0:
                     killed.append(pid + "?")
-            meta = json.load(open(d[:-5] + ".json"))
             res.write("%s\t%s\t%s:%d\t%s -> %s\t%s\n" % (name, ",".join(killed) or "SURVIVED", meta["file"], meta["line"], meta["from"], meta["to"], meta["text"]))
             res.flush()
         finally:
